@@ -38,7 +38,7 @@ POOLS = {
     "deep": ["a", "b"],
 }
 POOL_ORDER = ["ab", "abc", "abcd", "real", "idn", "edge", "digits", "suffixy", "wide", "deep"]
-URL_FORMS = ["http", "bare", "port", "schemeless", "auth", "split", "https_q", "auth_noport", "user_only", "upper_scheme", "query_only"]
+URL_FORMS = ["http", "bare", "port", "schemeless", "auth", "split", "https_q", "auth_noport", "user_only", "upper_scheme", "query_only", "frag_only", "bare_port", "bare_query", "bare_user"]
 NONSTRING = ["none", "int", "list", "bytes"]
 FAULT_KINDS = ["iter_cancel", "add_raises"]
 
@@ -106,6 +106,14 @@ def render_url(host, form):
         return "ftp://user@%s:21/" % host
     if form == "upper_scheme":
         return "HTTPS://%s/Path" % host
+    if form == "frag_only":
+        return "https://%s#section" % host
+    if form == "bare_port":
+        return "%s:8080" % host
+    if form == "bare_query":
+        return "%s?next=/x" % host
+    if form == "bare_user":
+        return "user@%s/p" % host
     if form == "query_only":
         return "http://%s?x=1#frag" % host
     if form == "https_q":
